@@ -14,7 +14,8 @@ EXPLANATION = (
     "and array subtypes (match-arm tables; the lazy record's parsers are compared as further decoders of the same coding "
     "family), the '*' missing markers are the same byte on both sides; (R3) the BAM header reader compares the SAM-text "
     "reference dictionary with the binary reference list before returning Ok; (R4) RNEXT '=' is produced only by "
-    "write_mate_reference_sequence_name (comparison of the two names) and expanded by the parser's mate arm.")
+    "write_mate_reference_sequence_name (comparison of the two names) and expanded by the parser's mate arm."
+    " (R5) reused destination: every entry->Ok path of parse_record_buf and try_clone_from_alignment_record overwrites or clears each of the twelve columns (a `*` sentinel must reset the column, not skip it); (R6) append-buffer discipline: every read_line/read_until site of the SAM readers and of the BAM header's text reader is preceded, on all entry paths and all cycles, by a reset of the buffer it appends to.")
 ASSUMPTIONS = ["float formatting/parsing, integer width selection for `i` tags and the header grammar are value-level (unit tests)"]
 NOT_DECIDED = ["float text forms, integer tag widths, fixed-point byte equality, full header record grammar and field order",
                "equality of SAM- and BAM-read records beyond the shared data model"]
